@@ -49,9 +49,13 @@ def check(run):
               ">=1.0.0-rc.1|<1.0.0-rc.10|>=1.0.0-rc.2"]
     versranges = ["vers:%s/%s" % (s, b) for b in bodies for s in versgen.SCHEMES]
     versprobes = ["1.0.0", "1.0.0-beta5", "1.5", "2.0.7", "1.0.0-rc.3", "v1.0.0", "1.0~rc2"]
+    import re
+    longd = {e: [t for t in acc[e] if re.search(r"[0-9]{19}", t)] for e in ECOS}
+    rejs = {e: [t for t, _ in U[e] if t not in set(acc[e])] for e in ECOS}
     base_jobs = []
     for e in ECOS:
-        base_jobs.append({"k": "conc", "eco": e, "versions": list(dict.fromkeys(fam[e][:5] + vlib.stratified(acc[e], nv, rnd))),
+        base_jobs.append({"k": "conc", "eco": e, "versions": list(dict.fromkeys(fam[e][:5] + rnd.sample(longd[e], min(3, len(longd[e]))) + vlib.stratified(acc[e], nv, rnd))),
+                          "rejects": (sorted(rejs[e], key=lambda t: -len(t))[:2] + rnd.sample(rejs[e], min(3, len(rejs[e])))) + ["1." + "9" * 20, "9" * 20, ""],
                           "ranges": list(dict.fromkeys(must_r[e] + vlib.stratified(rtexts[e] or ["1.0"], nr, rnd))),
                           "versranges": versranges if e in ("npm", "maven") else [], "versprobes": versprobes, "g": 16 if quick else 32,
                           "rounds": 2 if quick else 6})
